@@ -370,6 +370,59 @@ def sc_delegate_name_cycle(rng):
             pass
 
 
+def sc_original_value_defaults(rng):
+    """callable defaults of traits that store the ORIGINAL value while the validator returns a
+    different object (Expression: compiled code; AdaptsTo: the adapter), reached by first read,
+    first assignment under a listener, del with listeners, CTrait.default_value_for"""
+    from traits.api import Expression, AdaptsTo, Interface, provides, Adapter
+    from traits.adaptation.api import AdaptationManager, set_global_adaptation_manager, get_global_adaptation_manager
+
+    class IP(Interface):
+        pass
+
+    class Src:
+        pass
+
+    @provides(IP)
+    class Ad(Adapter):
+        pass
+
+    class S(str):
+        pass
+
+    class H(HasTraits):
+        formula = Expression
+        ada = AdaptsTo(IP)
+
+        def _formula_default(self):
+            return S("1 + %d" % rng.randrange(1000))
+
+        def _ada_default(self):
+            return Src()
+    old = get_global_adaptation_manager()
+    mgr = AdaptationManager()
+    mgr.register_factory(Ad, Src, IP)
+    set_global_adaptation_manager(mgr)
+    try:
+        for k in range(20):
+            h = H()
+            if rng.random() < 0.5:
+                h.on_trait_change(lambda: None, rng.choice(["formula", "ada"]))
+            ops = [lambda: h.formula, lambda: h.formula_, lambda: h.ada, lambda: h.ada_,
+                   lambda: setattr(h, "formula", "2*3"), lambda: setattr(h, "ada", Src()),
+                   lambda: delattr(h, "formula"), lambda: delattr(h, "ada"),
+                   lambda: h.trait("formula").default_value_for(h, "formula"),
+                   lambda: h.trait("ada").default_value_for(h, "ada"), lambda: h.trait_get(),
+                   lambda: h.reset_traits(), lambda: gc.collect(), lambda: copy.deepcopy(h), lambda: h.clone_traits()]
+            for _ in range(rng.randint(3, 12)):
+                try:
+                    rng.choice(ops)()
+                except Exception:
+                    pass
+    finally:
+        set_global_adaptation_manager(old)
+
+
 def sc_delegate_value_dies(rng):
     class P(HasTraits):
         x = Int
@@ -1054,7 +1107,7 @@ SCENARIOS = [
     sc_observe_mutating_handlers, sc_default_attribute_error_warning, sc_anytrait_handlers_mutate,
     sc_delegate_dropped_during_access, sc_plain_property, sc_no_dict_instance,
     sc_items_and_python_names, sc_ctrait_public_setters, sc_finalizers_collect,
-    sc_delegate_name_cycle,
+    sc_delegate_name_cycle, sc_original_value_defaults,
 ]
 
 
